@@ -149,6 +149,17 @@ type FieldsCompared struct {
 	Line   int
 }
 
+// FreshInLoop: "freshinloop FUNC VAR N": the local variable VAR of FUNC is
+// declared inside loop N (a new variable in every iteration).
+type FreshInLoop struct {
+	Props []string
+	Func  string
+	Var   string
+	Loop  int
+	File  string
+	Line  int
+}
+
 type MapRangeRule struct {
 	Props  []string
 	Func   string // function key
@@ -168,6 +179,7 @@ type Contracts struct {
 	EmitOnSuccess []*EmitOnSuccess
 	ConstFormats []*ConstFormat
 	FieldsCompared []*FieldsCompared
+	FreshInLoops []*FreshInLoop
 	Funcs  map[string]*FuncContract // key: pkgpath + "::" + relname, or absolute name for externals
 	Ghosts map[string]*GhostVar
 	Specs  map[string]*SpecFunc
@@ -178,7 +190,7 @@ type Contracts struct {
 }
 
 var clauseRe = regexp.MustCompile(`^(requires|hypothesis|ensures|xensures|invariant|decreases|assert|assume|modifies|trusted|freshresult|pure|inline|noinline|nullable|maypanic|nopanic|let|set|init|specialize|assign)\b(\[[A-Za-z0-9, ]*\])?\s*(.*)$`)
-var topRe = regexp.MustCompile(`^(func|ghost|spec|axiom|lemma|iface|only|maprange|globalconst|emitonsuccess|constformat|fieldscompared)\b(\[[A-Za-z0-9, ]*\])?\s*(.*)$`)
+var topRe = regexp.MustCompile(`^(func|ghost|spec|axiom|lemma|iface|only|maprange|globalconst|emitonsuccess|constformat|fieldscompared|freshinloop)\b(\[[A-Za-z0-9, ]*\])?\s*(.*)$`)
 
 func parseProps(s string) []string {
 	s = strings.Trim(s, "[]")
@@ -365,6 +377,21 @@ func (cs *Contracts) parseFile(fname, pkg, prefix string) {
 					r.Allowed = append(r.Allowed, a)
 				}
 				cs.Onlys = append(cs.Onlys, r)
+			case "freshinloop":
+				f := strings.Fields(rest)
+				n := 0
+				if len(f) == 3 {
+					fmt.Sscanf(f[2], "%d", &n)
+				}
+				if n == 0 {
+					cs.errf(fname, l.line, "freshinloop needs FUNC VAR LOOP-ORDINAL")
+					continue
+				}
+				fn := f[0]
+				if pkg != "" && !strings.Contains(fn, "::") {
+					fn = pkg + "::" + fn
+				}
+				cs.FreshInLoops = append(cs.FreshInLoops, &FreshInLoop{Props: props, Func: fn, Var: f[1], Loop: n, File: fname, Line: l.line})
 			case "fieldscompared":
 				f := strings.Fields(rest)
 				if len(f) < 2 || (len(f) > 2 && (len(f) != 4 || f[2] != "except")) {
